@@ -26,7 +26,7 @@ from . import common, mcommon, c04
 ID = "C08"
 NEEDS_MODEL = True
 LEVEL = "exploration"
-NSPECS = {"quick": 160, "thorough": 1500}
+NSPECS = {"quick": 160, "thorough": 1000}
 NSEEDS = {"quick": 8, "thorough": 64}
 HERE = os.path.dirname(os.path.dirname(os.path.dirname(os.path.abspath(__file__))))
 TECHNIQUE = ("runtime monitoring under schedule perturbation: worker processes with different "
@@ -49,7 +49,7 @@ def build_corpus(tier, seed):
     i = 0
     classes = ["shape", "occupancy2", "flatten", "occupancy", "metrics", "double-flatten",
                "cascade", "flatten3", "occupancy2", "metrics", "affine", "spacetime", "double-flatten",
-               "flatten3", "plain"]
+               "flatten3", "plain", "flatten-lookup"]
     while len(items) < n and i < 10 * n:
         rnd = random.Random("%s-%d-%d" % (ID, seed, i))
         cls = classes[i % len(classes)]
@@ -88,7 +88,7 @@ def classify(spec, problems, extents=None):
     k = kf.classify_plain(spec, problems) or mcommon.kf6(spec, problems)
     if k:
         return k
-    if any(t in spec.tags for t in ("S1", "S2", "S3", "S4", "S5", "S6", "S8")):
+    if any(t in spec.tags for t in ("S1", "S2", "S3", "S4", "S5", "S6", "S8", "S9", "S10")):
         k = c04.classify(spec, problems, extents)
         if k:
             return k
